@@ -14,6 +14,8 @@ pub mod c05;
 pub mod c07;
 #[cfg(any(feature = "c08", not(kani)))]
 pub mod c08;
+#[cfg(any(feature = "c12", not(kani)))]
+pub mod c12;
 #[cfg(any(feature = "c16", not(kani)))]
 pub mod c16;
 #[cfg(any(feature = "c17", not(kani)))]
